@@ -24,8 +24,10 @@ func main() {
 	vdir := flag.String("verif", "/verif", "verif root (evidence, known findings)")
 	list := flag.Bool("list", false, "list properties with checks")
 	discover := flag.String("discover", "", "print guard signatures of functions whose key matches this regexp (tool for building tables)")
+	survey := flag.Bool("siblings", false, "print deviating sibling functions (tool for building the variant table)")
 	lint := flag.String("lint", "", "run one lint (L1, L2, L7, L17) over the whole library and print its hits (debug tool)")
 	setters := flag.String("setters", "", "list setter-like methods (key regexp) that do not fully define their receiver (debug tool)")
+	fluent := flag.String("fluent", "", "print definite-assignment verdicts of fluent methods (key regexp; debug tool)")
 	effects := flag.String("effects", "", "print mod/ref/hazard summaries of functions whose key matches this regexp (debug tool)")
 	flag.Parse()
 	// measured on this image: kernel-side page-fault contention makes 16 Ps slower than 8.
@@ -37,8 +39,16 @@ func main() {
 	}
 	repoDir = *repo
 	verifDir = *vdir
+	if *survey {
+		runSiblingSurvey()
+		return
+	}
 	if *lint != "" {
 		runLint(*lint)
+		return
+	}
+	if *fluent != "" {
+		runFluent(*fluent)
 		return
 	}
 	if *setters != "" {
@@ -104,6 +114,7 @@ func main() {
 			}
 		}()
 		f(c)
+		runSibling(c)
 		return c.Finish()
 	}()
 	os.Exit(code)
